@@ -193,7 +193,7 @@ def tree_crosscheck(case_lines, model_kvs, limit=25, impl_kvs=None, verdicts=Non
         n += 1
         if n >= limit:
             break
-    d = os.path.join(build.BUILD, 'xcheck')
+    d = os.path.join(build.BUILD, 'xcheck', prop)
     os.makedirs(d, exist_ok=True)
     path = os.path.join(d, 'XCheckTree.v')
     open(path, 'w').write('\n'.join(body) + '\n')
